@@ -299,13 +299,14 @@ def run(ctx, pid):
     dropped = s1['dropped'] + s2['dropped']
     if dropped * 2 > s1['timed'] + s2['timed'] and dropped > 5:
         raise vlib.Machinery('%d of %d real-time scenarios could not be run inside their timing windows (machine too loaded)' % (dropped, s1['timed'] + s2['timed']))
-    missing = [k for k in NEEDED[pid] if not ctx.cov['per_op'].get(k)]
-    if missing:
-        raise vlib.Machinery('the recorded runs never exercised: %s' % ', '.join(missing))
     ctx.cov['samples'] = [dict(tlc_walk=walks[0]['ops'][:6], cfg=walks[0]['cfg']), dict(recorded_events=samples(traces[1]))]
     ctx.cov['harness'] = stats
     ctx.cov['claimed_invariants'] = claim['names']
     judge(ctx, traces, claim['consts'], 'ociauth transport vs OciAuth (%s observables)' % pid)
+    # an accepted batch in which an action the property depends on never occurred proves nothing
+    missing = [k for k in NEEDED[pid] if not ctx.cov['per_op'].get(k)]
+    if missing and not ctx.violations:
+        raise vlib.Machinery('the recorded runs never exercised: %s' % ', '.join(missing))
     if not quick and not ctx.violations:
         canary(ctx, traces[1], claim['consts'], pid)
     models.finish()
